@@ -227,9 +227,18 @@ def exec_log(log, calls, build_calls, names):
         for h, o, v in ran:
             applied.append([action, h])
             trace.append([action, h, o, list(v) if isinstance(v, Tok) else f"not-the-drawn-value:{type(v).__name__}"])
-        if err is not None or not ran:
-            applied.append([action, err or "no-hook-called"])
-            trace.append([action, err or "no-hook-called", None, list(value)])
+        if err is not None:
+            applied.append([action, err])
+            trace.append([action, err, None, list(value)])
+            continue
+        if not ran:
+            # a stage of the code's own that involves no hook (say an identity `.map`): transparent, unless it rejects
+            if action == "filter" and not out:
+                trace.append([action, "rejected-without-a-hook", None, list(value)])
+            elif action == "map" and isinstance(out, Tok):
+                value = out
+            elif action == "flatmap" and isinstance(out, RecJust) and isinstance(out.value, Tok):
+                value = out.value
             continue
         if action == "filter":
             if not out:
@@ -1006,6 +1015,11 @@ WITNESSES = {
     "leak": {"ops": [["registerName", 1, "map_query"], ["decoApply", 0, True, 0], ["decorate", 0, 0],
                      ["registerFn", 1, 1, "map_query"]], "names": ["map_body", "map_query"]},
     "case": {"ops": [["regApply", 2, True, 0], ["registerFn", 2, 0, "map_case"]], "names": ["map_case"]},
+    # several hooks in every application loop of one dispatcher, the last one of each loop restricted to /a
+    "loops": {"ops": [op for a in ACTIONS for op in (["registerFn", 1, 2 * ACTIONS.index(a), f"{a}_case"],
+                                                      ["regApply", 1, True, 0],
+                                                      ["registerFn", 1, 2 * ACTIONS.index(a) + 1, f"{a}_case"])],
+              "names": [f"{a}_case" for a in ACTIONS for _ in range(2)]},
 }
 
 
